@@ -149,7 +149,14 @@ def run(chk):
     try:
         fvm = core.build_fvm()
         model = core.run_stream(fvm, "adapters", cases)
-        chk.correspond("adapters", "matrix", cases, impl, model)
+        # which device reads an adapter issues (one per word, one per row, cached) is not a subject of C16 as long as each read
+        # is aligned and inside the range (the simulated device rejects the others, which changes the result): read entries of
+        # the device log are compared softly
+        import re
+        rd = re.compile(r"R@[0-9a-f]+\+[0-9a-f]+,?")
+        def soft(line):
+            return re.sub(r",\]", "]", rd.sub("", line)).replace("[]", "")
+        chk.correspond("adapters", "matrix", cases, impl, model, soft=soft)
     except core.BuildError as e:
         chk.broken.append(("correspondence", "adapters[model build]", {"detail": str(e)[-1500:]}))
     return chk.finish(level="proof",
